@@ -125,7 +125,8 @@ ASSUMPTIONS = [
     "(the Widget box-size convention; old or new size around a resize; the pop-up's size is not asserted)",
     "the next scripted event is produced only after a completed draw (or at the end of an alarm / pipe / file "
     "callback), so 'the loop next waits' is the point where nothing else can happen: a session that makes no "
-    "progress for 1 s and, run again, for 4 s is taken as 'the loop waited' (a stall that matches a listed "
+    "progress for 1 s (0.35 s once the injected exception has been raised) and, run again, for 4 s is taken as "
+    "'the loop waited' (a stall that matches a listed "
     "finding is not run again); a stall that cannot be attributed, or a child that exceeds 14 s, is inconclusive "
     "(discarded, counted)",
     "SIGINT is not asserted (Twisted's reactor keeps its own handler after crash()); only the three signals "
@@ -143,6 +144,8 @@ ASSUMPTIONS = [
 LOOPS = ["select", "asyncio", "tornado", "twisted", "trio", "zmq"]
 STALL = 1.0  # seconds without any callback before the child reports a stall
 STALL_CONFIRM = 4.0  # ... in the confirmation run
+STALL_RAISED = 0.35  # ... once the injected exception has been raised (first run only): what is left is urwid's
+#                      own way out of run(), no scripted event is waited for any more
 CHILD_LIMIT = 14.0  # seconds before the parent kills the child (inconclusive)
 
 COMPLETE_WAIT = 8.0  # Screen.set_input_timeouts(complete_wait=...): see the module docstring ("run")
@@ -424,7 +427,8 @@ class _Harness:
 
     # -- plumbing ---------------------------------------------------------------------------
     def touch(self):
-        signal.setitimer(signal.ITIMER_REAL, self.stall)
+        short = self.exc is not None and self.stall <= STALL
+        signal.setitimer(signal.ITIMER_REAL, STALL_RAISED if short else self.stall)
 
     def drain(self):
         out = bytearray()
@@ -453,6 +457,7 @@ class _Harness:
             cls = {"exit": ExitMainLoop, "boom": Boom, "abort": Abort}[inj[1]]
             self.exc = cls() if cls is ExitMainLoop else cls(f"injected at invocation {i} ({kind})")
             self.log.append(["raise", i, self.inject[1], kind])
+            self.touch()
             raise self.exc
 
     # -- user callbacks ---------------------------------------------------------------------
